@@ -459,7 +459,7 @@ def run_trigger(w):
   for c in ('Q', 'P', 'S'):
     for i, (a, b) in enumerate(zip(exp[c], got[c])):
       if a != b:
-        kind = 'stale_cycle_error' if b == CRE else 'wrong_value'
+        kind = 'stale_cycle_error' if isinstance(b, list) and b[:2] == CRE else 'wrong_value'
         return kind, ('trigger column P = $Q + 1 (recalc when Q changes), %s; cycle broken by %s := %s; D edited in '
                       'every row: %s[row %d] holds %r, expected %r' % (var['cols'], var['break'][0], var['break'][1],
                                                                       c, i + 1, b, a))
